@@ -191,6 +191,7 @@ class SimTransport(Transport):
         super().__init__()
         self.loop = loop
         self.sent = []          # (t_us, decoded frame)
+        self.trace = []         # ('in'|'out', decoded frame) in global order
         self.raw = []           # in-memory frames as handed over
         self.q = asyncio.Queue()
         self.closed = 0
@@ -222,7 +223,9 @@ class SimTransport(Transport):
         if self.closed:
             self.sent_after_close += 1
         self.raw.append(frame)
-        self.sent.append((self.loop.now_us(), fast_parse(fast_serialize(frame))))
+        _dec = fast_parse(fast_serialize(frame))
+        self.sent.append((self.loop.now_us(), _dec))
+        self.trace.append(('out', _dec))
         if self.block_sends:
             self.gate = self.loop.create_future()
             await self.gate
@@ -250,11 +253,13 @@ class SimTransport(Transport):
 
     # harness helpers
     def feed(self, frame):
+        self.trace.append(('in', frame))
         self.q.put_nowait(frame)
 
     def feed_wire(self, frame):
         f = wire(frame)
         if f is not None:
+            self.trace.append(('in', f))
             self.q.put_nowait(f)
 
     def eof(self):
